@@ -16,6 +16,7 @@ RULE = ('random layouts: 0-6 regions x 0-5 lines; coordinates int / float / nega
         'non-trivial = at least one region with a line; distinct = hash of the layout description History legs: reload after in-place edit of the first loaded layout; the exported page object is edited (13 kinds of edits) and exported again and must write what a page built from scratch with the edited content writes. Heights rounding to [0.0, 0.0]. Negative heights; explicitly closed outlines.')
 RULE += ' Round 6: Coordinates at and beyond 2^31.'
 RULE += ' Round 7: Inline tags together with carriage returns; confidences outside 0..1; a dangling reading-order entry X next to an unlisted region id_X.'
+RULE += ' Round 8: Negative line indices; coordinate arrays with identical bytes in two integer types.'
 ASSUMPTIONS = ['text is XML-legal Unicode (lxml refuses control characters)', 'page sizes are integers and region/line ids are unique non-empty strings',
                'a confidence is only set on lines that have a transcription (the attribute lives on the TextEquiv element)',
                'where the original has no heights (import guesses them) or no index (export writes the position) only the fixpoint and the remaining fields are required']
